@@ -60,7 +60,7 @@ Definition gadd_delay (c : gcircuit) (g : nat) : bool :=
   if group_spread c g || (continuous c && existsb g_has_delay (ggroup c g))
   then existsb (fun e => negb (Qle_bool (this (slot_m c e)) (this (gdt c)))) (ggroup c g)
   else existsb (fun e => negb (Qle_bool (this (slot_m c e)) 1)) (ggroup c g).
-(* (with fixes/proposed_fix_C11_mixed_kinds.diff the first test runs over the edges WITH a spread only; the difference shows only when
+(* (with fix D114 (fixes/round8/05_D114.diff) the first test runs over the edges WITH a spread only; the difference shows only when
    every spread edge of the group has a delay <= dt, which g_above_step excludes) *)
 
 (* round(rate, 12) *)
@@ -133,11 +133,11 @@ Definition g_conn (c : gcircuit) : bool :=
    spread-less edges that are buffered together exceeds 1 (Ring.gadd). *)
 Definition plain_steps (c : gcircuit) (e : gedge) : nat :=
   match gd e with Some (d, None) => steps_of d (gdt c) | _ => O end.
-(* D111 (open): as the code is, ALL scalar edges leaving a (merged) source variable share one _add_edge_buffer call; as soon as one of
+(* D114 (open): as the code is, ALL scalar edges leaving a (merged) source variable share one _add_edge_buffer call; as soon as one of
    them has a spread the ODE branch is taken for all, and a spread-less edge gets the kernel of order `dde_approx if m else 0` = 0: a
    pass-through, its discrete delay is silently dropped (vectorize=True: whenever ANY unit of the merged source vector has a spread edge).
-   fixed_mixed_kinds: false = the code as it is; true = fixes/proposed_fix_C11_mixed_kinds.diff (the two kinds are buffered separately). *)
-Definition fixed_mixed_kinds : bool := false.
+   fixed_mixed_kinds: false = the code as it is; true = fix D114 (fixes/round8/05_D114.diff) (the two kinds are buffered separately). *)
+Definition fixed_mixed_kinds : bool := true.
 Definition impl_step (c : gcircuit) (e : gedge) : nat :=
   let g := gkey c (gsrc e) in
   if continuous c then O                                    (* dde_approx: every delay is a kernel *)
@@ -240,7 +240,7 @@ Definition g_uniform_keys (c : gcircuit) : bool :=
 (* D110 (open, loud; see Ring.g_no_twin_collision): delayed edges leaving two variables of one operator do not compile *)
 Definition g_no_twin_collision (twins : list (nat * nat)) (c : gcircuit) : bool :=
   fixed_twin_names || forallb (fun p => negb (gadd_delay c (gkey c (fst p)) && gadd_delay c (gkey c (snd p)))) twins.
-(* the discrete delays of the spread-less edges are the specified ones.  False exactly on D111 (a plain delay that shares its (merged)
+(* the discrete delays of the spread-less edges are the specified ones.  False exactly on D114 (a plain delay that shares its (merged)
    source variable with a spread edge, dde_approx = 0) and on the property's scope boundary (plain delays below two steps are neglected) *)
 Definition g_steps_exact (c : gcircuit) : bool :=
   forallb (fun e => Nat.eqb (impl_step c e) (spec_step c e)) (gedges c).
